@@ -2,7 +2,10 @@ pub mod c01;
 pub mod c02;
 pub mod c03;
 pub mod c06;
+pub mod c07;
+pub mod c08;
 pub mod c09;
+pub mod c10;
 pub mod c11;
 pub mod c12;
 pub mod c13;
@@ -16,7 +19,10 @@ pub fn registry() -> Vec<Box<dyn Prop>> {
         Box::new(c02::C02),
         Box::new(c03::C03),
         Box::new(c06::C06),
+        Box::new(c07::C07),
+        Box::new(c08::C08),
         Box::new(c09::C09),
+        Box::new(c10::C10),
         Box::new(c11::C11),
         Box::new(c12::C12),
         Box::new(c13::C13),
